@@ -1,5 +1,7 @@
 package rsm
 
+//vcheck:tags noasm
+//vcheck:bounds encoded entry (snappy): 1..8 symbolic bytes (literal-only blocks) or concrete repetitive payloads of 17/40/64/200 bytes with period 1..5 (blocks with copies); golang/snappy pure-Go encode/decode (build tag noasm) stands in for the amd64 assembly of the production build
 //vcheck:bounds encoded entry: payload of 1..4 symbolic bytes, caller buffer shorter / exact / longer than needed, no compression (Snappy block compression is outside); plain application and config-change entries pass through
 
 import (
@@ -44,5 +46,64 @@ func VHarness_C13_EncodedPayload() {
 		}
 	}
 	vReach("plain")
+	vReach("done")
+}
+
+// C13 ("entry payload encoding with or without compression returns the
+// original payload"): the Snappy branch of GetEncoded / GetPayload - header
+// byte, uncompressed-size varint, dio.CompressSnappyBlock /
+// DecompressSnappyBlock - with golang/snappy's pure-Go encoder and decoder
+// (build tag noasm; on amd64 the production build links the assembly
+// implementation of the same two functions, which cannot be executed
+// symbolically: their equivalence to the pure-Go versions is assumed).
+//vcheck: reach=literal-only,with-copies,caller-buffer,done workers=8 steps=3000000
+func VHarness_C13_EncodedSnappy() {
+	var cmd []byte
+	if vBool("short") {
+		// below snappy's minimum block size for match search: literal only, bytes symbolic
+		n := 1 + vChoose("len", 8)
+		cmd = make([]byte, n)
+		for i := range cmd {
+			cmd[i] = vU8("c")
+		}
+		vReach("literal-only")
+	} else {
+		// repetitive concrete payloads (the match finder indexes a hash table with
+		// the data, which symbolic bytes would turn into a 16384-way fork)
+		n := []int{17, 40, 64, 200}[vChoose("size", 4)]
+		period := 1 + vChoose("period", 5)
+		cmd = make([]byte, n)
+		for i := range cmd {
+			cmd[i] = byte(i%period) + 0x30
+		}
+		vReach("with-copies")
+	}
+	var dst []byte
+	if vBool("callerBuffer") {
+		dst = make([]byte, 3)
+		vReach("caller-buffer")
+	}
+	saved := append([]byte(nil), cmd...)
+	enc := GetEncoded(dio.Snappy, cmd, dst)
+	ver, ct, hasSession := parseEncodedHeader(enc)
+	vAssert(ver == EEV0 && ct == EESnappy && !hasSession, "snappy-header")
+	for i := range cmd {
+		vAssert(cmd[i] == saved[i], "input-not-modified")
+	}
+	var buf []byte
+	if vBool("decodeBuffer") {
+		buf = make([]byte, len(cmd)+2)
+	}
+	got, err := getDecodedPayload(enc, buf)
+	vAssert(err == nil, "decode-ok")
+	vAssert(len(got) == len(cmd), "decoded-length")
+	if len(got) == len(cmd) {
+		for i := range got {
+			vAssert(got[i] == saved[i], "payload-identical")
+		}
+	}
+	e := pb.Entry{Type: pb.EncodedEntry, Cmd: enc}
+	p, err := GetPayload(e)
+	vAssert(err == nil && len(p) == len(cmd), "get-payload-ok")
 	vReach("done")
 }
